@@ -17,7 +17,8 @@ BIAS = dict(p_weird_ids=0.15, n_test_faults=[0, 1, 2, 3, 4, 5], n_layer_faults=[
             layer_kinds=('setUp', 'tearDown'), p_buffer=0.5, p_j=0.2, p_repeat=0.15,
             p_shuffle=0.15, v=[0, 1, 2, 3], p_occ=0.2,
             test_excs=['AssertionError', 'ValueError', 'KeyError', 'CustomError', 'SystemExit',
-                       'TypeError', 'OSError', 'SkipTest', 'BadStr'],
+                       'TypeError', 'OSError', 'SkipTest', 'BadStr', 'Unhashable', 'SyntaxError'],
+            p_color=0.2, p_c_raise=0.12,
             profile=dict(p_doctest=0.2, p_subtests=0.25, p_setup=0.6, p_teardown=0.6, p_cleanup=0.35))
 
 
